@@ -3,7 +3,7 @@
    Subject: `encode` / `bparse` of Codec/Model.v (the schema-interpreting model of the generated Encode / Parse over a
    BufferReader) on the schemas of Codec/GenSchemas.v, which are re-translated from the source on every run.
    The last sentence of the property (generated code = generator output) is a finite direct decision made by the check. *)
-From Codec Require Import Schema Readers Model Spec GenSchemas SchemasWf LeafLemmas Roundtrip Theorems13 LengthExact DecodeThms Sim SimWr WireThms WirePlan GenTemplates Tmpl.
+From Codec Require Import Schema Readers Model Spec GenSchemas SchemasWf LeafLemmas Roundtrip Theorems13 LengthExact DecodeThms Sim SimWr WireThms WirePlan GenTemplates Tmpl Nested.
 Open Scope N_scope.
 
 (* the schemas the generator front end parses from the current definitions are well formed (79 models at pin time) *)
@@ -132,6 +132,42 @@ Theorem wire_plan_exact : forall fuel sc inc mi vs,
   wire_plan fuel sc inc mi vs = map seg_plan (encode_wire fuel sc inc mi vs).
 Proof. exact WirePlan.wire_plan_exact. Qed.
 Print Assumptions wire_plan_exact.
+
+(* ---- the second sentence at EVERY nesting depth (Nested.v) ----
+   `noisy sc ic fuel mi vs x`: x is an encoding of vs (model mi) in which runs of unrecognised skippable elements —
+   non-critical ones, or ANY unrecognised element when the caller asked to ignore critical ones — sit at arbitrary element
+   boundaries of the model and, recursively, of every nested model value (struct fields, elements of sequences of structs,
+   values of maps of structs).  Such an input decodes to vs: every nested parser skips them too, i.e. the caller's
+   ignoreCritical flag reaches every depth.  Both readers, any segmentation.  (Loop lemma Roundtrip.fields_loop_g: the value
+   bytes of a struct-typed element may be any bytes the nested parser maps to the nested value.) *)
+Theorem unknown_skipped_every_depth : forall sc, schema_wf sc = true ->
+  forall fuel mi vs ic x, noisy sc ic fuel mi vs x -> exists ctx cov, decode sc mi ic x = Ok (vs, ctx, cov).
+Proof. exact decode_noisy. Qed.
+Print Assumptions unknown_skipped_every_depth.
+
+Theorem unknown_skipped_every_depth_wire : forall sc, schema_wf sc = true ->
+  forall fuel mi vs ic segs, noisy sc ic fuel mi vs (concat segs) -> exists ctx cov, decode_wire sc mi ic segs = Ok (vs, ctx, cov).
+Proof. exact decode_wire_noisy. Qed.
+Print Assumptions unknown_skipped_every_depth_wire.
+
+(* `noisy` is inhabited: every exact encoding (no noise) ... *)
+Theorem noisy_exact : forall sc, schema_wf sc = true ->
+  forall fuel mi vs ic, wf_value fuel sc mi vs = true -> small (encode fuel sc mi vs) -> noisy sc ic fuel mi vs (encode fuel sc mi vs).
+Proof. exact Nested.noisy_exact. Qed.
+Print Assumptions noisy_exact.
+
+(* ... and e.g. gen_composition.Nested{Val: &Inner{Num: 5}} carrying the unrecognised CRITICAL element 09 01 aa inside the
+   nested Inner value, read with ignoreCritical = true:  02 06 [09 01 aa] 01 01 05  (the input of seeded change C13-R7M2) *)
+Example nested_noisy_example :
+  noisy pkg_std_encoding_tests_gen_composition true 2 3 [VStruct [VNat 5]] [2; 6; 9; 1; 170; 1; 1; 5] /\
+  (exists ctx cov, decode pkg_std_encoding_tests_gen_composition 3 true [2; 6; 9; 1; 170; 1; 1; 5] = Ok ([VStruct [VNat 5]], ctx, cov)) /\
+  decode pkg_std_encoding_tests_gen_composition 3 false [2; 6; 9; 1; 170; 1; 1; 5] = Err E_CRITICAL.
+Proof.
+  split; [exact Nested.nested_noisy_example|]. split; [|vm_compute; reflexivity].
+  assert (H : schema_wf pkg_std_encoding_tests_gen_composition = true) by (vm_compute; reflexivity).
+  exact (decode_noisy pkg_std_encoding_tests_gen_composition H 2%nat 3%nat [VStruct [VNat 5]] true [2; 6; 9; 1; 170; 1; 1; 5]
+           Nested.nested_noisy_example).
+Qed.
 
 (* ---- generator identity, beyond the byte comparison of the regenerated files: the templates themselves ----
    GenTemplates.v is the control skeleton of the generator's ModelParse template (and the `progress` statements of the
